@@ -225,10 +225,16 @@ impl<Resp> Drop for ResponseGuard<'_, Resp> {
         // closing the receiver before sending the cancel message, it is guaranteed that if the
         // dispatch task misses an early-arriving cancellation message, then it will see the
         // receiver as closed.
+        #[cfg(tarpc_verif)]
+        crate::verif::yield_point("client_guard_drop:enter");
         self.response.close();
+        #[cfg(tarpc_verif)]
+        crate::verif::yield_point("client_guard_drop:mid");
         if self.cancel {
             self.cancellation.cancel(self.request_id);
         }
+        #[cfg(tarpc_verif)]
+        crate::verif::yield_point("client_guard_drop:exit");
     }
 }
 
